@@ -1174,6 +1174,93 @@ pub fn run<'tcx>(tcx: TyCtxt<'tcx>) {
             }
         }
     }
+    // base iteration over the containers: `<&C as IntoIterator>::into_iter` and, for the (crate-local) iterator type it returns, every
+    // method of its `impl Iterator` (next and any overridden provided method)
+    if let (Some(t_into), Some(t_iter)) =
+        (tcx.get_diagnostic_item(rustc_span::sym::IntoIterator), tcx.get_diagnostic_item(rustc_span::sym::Iterator))
+    {
+        let into_m = tcx.associated_items(t_into).in_definition_order().find(|it| it.is_fn() && it.name().as_str() == "into_iter").map(|it| it.def_id);
+        if let Some(into_m) = into_m {
+            // things iterated: &C for every container; a graph node's k-mer handle NodeKmer<'_, K, ()> for a spread of k-mer types
+            let mut iterated: Vec<(Ty<'tcx>, Ty<'tcx>)> = Vec::new();
+            for c in containers.iter() {
+                iterated.push((Ty::new_imm_ref(tcx, tcx.lifetimes.re_erased, *c), *c));
+            }
+            if let Some(nk) = find_adt("NodeKmer") {
+                if tcx.generics_of(nk).count() == 3 {
+                    for (kt, _) in ktypes.iter() {
+                        let sname = tystr(*kt);
+                        if sname.contains("K3>") || sname == "kmer::IntKmer<u64>" || sname.contains("K48>") || thorough {
+                            let t = Ty::new_adt(
+                                tcx,
+                                tcx.adt_def(nk),
+                                tcx.mk_args(&[GenericArg::from(tcx.lifetimes.re_erased), GenericArg::from(*kt), GenericArg::from(tcx.types.unit)]),
+                            );
+                            iterated.push((t, t));
+                        }
+                    }
+                }
+            }
+            for (rty, c) in iterated.iter() {
+                let rty = *rty;
+                let args = tcx.mk_args(&[GenericArg::from(rty)]);
+                let r = std::panic::catch_unwind(std::panic::AssertUnwindSafe(|| {
+                    Instance::try_resolve(tcx, env_mono, into_m, args).ok().flatten()
+                }));
+                let Ok(Some(inst)) = r else { continue };
+                if !inst.def_id().is_local() {
+                    continue;
+                }
+                roots.push((
+                    inst,
+                    J::obj().with("trait", J::s("IntoIterator")).with("method", J::s("into_iter")).with("self", J::s(tystr(rty))),
+                ));
+                let rt = std::panic::catch_unwind(std::panic::AssertUnwindSafe(|| {
+                    let body = tcx.instance_mir(inst.def);
+                    let t0 = body.local_decls[mir::RETURN_PLACE].ty;
+                    inst.instantiate_mir_and_normalize_erasing_regions(tcx, env_mono, EarlyBinder::bind(t0))
+                }));
+                let Ok(ity) = rt else { continue };
+                let ty::Adt(iad, _) = ity.kind() else { continue };
+                if !iad.did().is_local() {
+                    continue;
+                }
+                for imp in tcx.all_impls(t_iter) {
+                    if !imp.is_local() {
+                        continue;
+                    }
+                    let st = tcx.type_of(imp).instantiate_identity().skip_norm_wip();
+                    let ty::Adt(ad, _) = st.kind() else { continue };
+                    if ad.did() != iad.did() {
+                        continue;
+                    }
+                    for it in tcx.associated_items(imp).in_definition_order() {
+                        if !it.is_fn() {
+                            continue;
+                        }
+                        let Some(tm_) = it.trait_item_def_id() else { continue };
+                        if tcx.generics_of(tm_).count() != 1 {
+                            continue;
+                        }
+                        let a2 = tcx.mk_args(&[GenericArg::from(ity)]);
+                        let r2 = std::panic::catch_unwind(std::panic::AssertUnwindSafe(|| {
+                            Instance::try_resolve(tcx, env_mono, tm_, a2).ok().flatten()
+                        }));
+                        if let Ok(Some(i2)) = r2 {
+                            roots.push((
+                                i2,
+                                J::obj()
+                                    .with("trait", J::s("Iterator"))
+                                    .with("method", J::s(tcx.item_name(tm_).to_string()))
+                                    .with("self", J::s(tystr(ity)))
+                                    .with("of", J::s(tystr(*c))),
+                            ));
+                        }
+                    }
+                }
+            }
+        }
+    }
     // the k-mer iterators over sequence containers: every method of `impl Iterator for KmerIter / KmerExtsIter` (next and any
     // overridden provided method), for every container x a spread of k-mer types
     if let Some(t_iter) = tcx.get_diagnostic_item(rustc_span::sym::Iterator) {
